@@ -187,7 +187,7 @@ def main():
     sel = []
     for m in allm:
         k = (m[0], m[1])
-        if per.get(k, 0) >= 2:
+        if per.get(k, 0) >= int(opt('--per-line', '2')):
             continue
         per[k] = per.get(k, 0) + 1
         sel.append(m)
